@@ -47,6 +47,7 @@ def run(ctx):
     c06.r1(a)
     c06.r23(a)
     c07.r1(a)
+    c07.r8(MultiAlias(ctx, {"C07.R8": "C01.R8"}))      # one parser (and its read-ahead buffer) per connection
 
 
 # ------------------------------------------------------------------------------- R1
